@@ -61,6 +61,9 @@ def concretize(v, model):
     if isinstance(v, SBV):
         r = _ev(model, v.z)
         val = r.as_signed_long() if v.signed else r.as_long()
+        from .proxies import SPyInt
+        if isinstance(v, SPyInt):
+            return int(val)
         return getattr(np, v.dtype_name)(val)
     if isinstance(v, np.ndarray) and v.dtype == object:
         flat = [concretize(x, model) for x in v.flat]
@@ -388,3 +391,41 @@ def _run_native(fc, res, tier, seed, exclusions):
         if not ok and len(res["native_failures"]) < 5:
             res["native_failures"].append(dict(inputs=jsonable(a), detail=detail))
     res["native_runs"] = n
+
+
+class LemmaJob:
+    """Lemmas over contracts (no code): each lemma is a closed z3 formula proved valid.
+    Subclasses define name, prop, lemmas() -> dict name -> callable() -> z3 BoolRef / SBool."""
+    name = None
+    target = "(lemma over contracts)"
+    level = "P"
+    assumptions = ()
+    nl_mode = "nra"
+
+    def run_job(self, tier, seed, exclusions):
+        t0 = time.time()
+        res = JobResult(job=self.name, target=self.target, level=self.level, bound=None, prop=self.prop,
+                        obligations=[], failures=[], crashed=None, paths=0, solver_s=0.0, queries=0,
+                        assumptions=list(self.assumptions), native_runs=0, native_failures=[], vacuity=None)
+        try:
+            for lname, build in self.lemmas().items():
+                E = Engine(self.name)
+                E.nl_mode = self.nl_mode
+                Engine.current = E
+                E._reset_path([])
+                with S.symbolic_mode(), spec_eval():
+                    f = build()
+                ob = E.prove("%s:lemma.%s" % (self.name, lname), zbool(f), assume_after=False)
+                d = ob.as_dict()
+                if ob.status != "unsat":
+                    d["reason"] = ob.reason
+                    d["model"] = str(ob.model)[:3000] if ob.model is not None else None
+                    d["inputs"] = None
+                res["obligations"].append(d)
+                res["solver_s"] += E.solver_s
+                res["queries"] += E.queries
+                res["paths"] += 1
+        except Exception:
+            res["crashed"] = traceback.format_exc()
+        res["wall_s"] = time.time() - t0
+        return res
